@@ -210,11 +210,17 @@ def product_checks(chk):
     import ZConfig.cfgparser
     A = list("aB1-._ :()$/\t") + ["é", "٣", "　"]
     jobs = []
+    # the pattern objects are module-private: one that is no longer where it used to be is skipped (noted),
+    # the enumeration part of the check does not depend on it
     for dt, kind in REGEX_KINDS.items():
-        jobs.append((kind, D.stock_datatypes[dt]._rx, "datatype " + dt))
-    jobs.append(("substitution-name", ZConfig.substitution._name_re, "substitution._name_re"))
-    jobs.append(("config-token", ZConfig.cfgparser._name_re, "cfgparser._name_re"))
+        jobs.append((kind, getattr(D.stock_datatypes.get(dt), "_rx", None), "datatype " + dt))
+    jobs.append(("substitution-name", getattr(ZConfig.substitution, "_name_re", None), "substitution._name_re"))
+    jobs.append(("config-token", getattr(ZConfig.cfgparser, "_name_re", None), "cfgparser._name_re"))
     done = []
+    missing = [what for _, rx, what in jobs if rx is None]
+    if missing:
+        chk.note("regex_patterns_not_found", missing)
+    jobs = [j for j in jobs if j[1] is not None]
     for kind, rx, what in jobs:
         try:
             d = redfa.dfa(rx, A)
